@@ -96,6 +96,10 @@ def step' (w : W) (line : String) : W × String :=
          let owner := (w.conns.find? (fun (_, sl, g) => sl == k && some g == s.cbGen)).map (·.1)
          if !willRun then ({ w with fail := none }, s!"CONFORM-FAIL hang-up processed for slot {k} although the model skips the event") else
          let acts := if sl == "dial=out" then [Act.doEv, .detach, .doneEv]    -- pollDesc.onwrite: detach inside the dispatch
+                     -- `…d`: WaitWrite's ctx branch had detached the operator before this (earlier fetched) event was dispatched:
+                     -- the callbacks run, their detach is a no-op
+                     else if sl == "dial=outd" then [Act.doEv, .doneEv]
+                     else if sl == "dial=hupd" then [Act.doEv, .queueHup, .doneEv, .runHup s.gen false]
                      else if sl == "hup=full" then [Act.doEv, .queueHup, .detach, .doneEv, .runHup s.gen false, .stopFlush, .unused, .reset, .freeable, .closeFd s.gen]
                      else [Act.doEv, .queueHup, .detach, .doneEv, .runHup s.gen false]
          let w := apply w k acts
@@ -150,6 +154,9 @@ def step' (w : W) (line : String) : W × String :=
           | "hupg" => [Act.doEv, .queueHup, .detach, .doneEv, .runHup s.gen false]
           | "dhup" => [Act.doEv, .queueHup, .detach, .doneEv, .runHup s.gen false]
           | "dout" => [Act.doEv, .detach, .doneEv]
+          | "doutd" => [Act.doEv, .doneEv]
+          | "dhupd" => [Act.doEv, .queueHup, .doneEv, .runHup s.gen false]
+          | "dhupqd" => [Act.doEv, .queueHup, .doneEv]
           | _ => [Act.doEv, .queueHup, .detach, .doneEv]
         (apply w k acts, ranNow)) (w, [])
     fin w s!"ok ran={if ran.isEmpty then "none" else "+".intercalate ran}"
